@@ -365,3 +365,87 @@ Proof.
   - split; [unfold nf_inside; vm_compute; discriminate|].
     split; [eexists; vm_compute; reflexivity|vm_compute; reflexivity].
 Qed.
+
+(* ---------------------------------------------------------------- *)
+(* save points after /repo 9517ed8: saveConfig also runs where a binding is dropped (DECLINE, SELECT for another
+   server, lease replaced after a subnet change, leases freed by MinuteTicker, lease deleted on an exhausted pool).
+   Save policy, extensionally: the file is rewritten at least after every ACK and after every step in which a
+   non-free lease does not survive as a non-free lease with the same client id, MAC, address and subnet.
+   (A DISCOVER of a bound client turns its lease Allocated -> Discover with the same binding and does not save: the
+   client still holds the lease, and the file rightly keeps it.) *)
+
+Definition nonfree (l : D.lease) : Prop := D.l_state l <> D.SFree.
+Definition nonfree_in (t : list D.lease) (l : D.lease) : Prop :=
+  exists l', In l' t /\ nonfree l' /\ G.same_binding l' l.
+(* nothing in the file is stale, up to re-negotiating clients *)
+Definition current_mod (f t : list D.lease) : Prop :=
+  forall l, In l f -> D.l_state l = D.SAllocated -> nonfree_in t l.
+
+Section Policy.
+  Variable saves : D.dstate -> option D.reply -> D.dstate -> bool.
+  Hypothesis saves_lost : forall c ch s o s1 rp,
+    D.step c ch s o = (s1, rp) -> saves s rp s1 = false ->
+    forall l, In l (D.tbl s) -> nonfree l -> nonfree_in (D.tbl s1) l.
+
+  Lemma current_mod_run c h : forall s f, current_mod f (D.tbl s) ->
+    current_mod (snd (run_file saves c s f h)) (D.tbl (fst (run_file saves c s f h))).
+  Proof.
+    induction h as [|[ch o] r IH]; intros s f Hc; [exact Hc|].
+    simpl. destruct (D.step c ch s o) as [s1 rp] eqn:E. apply IH.
+    destruct (saves s rp s1) eqn:Es.
+    - intros l Hl Ha. exists l. split; [exact Hl|]. split; [unfold nonfree; congruence|apply same_binding_refl].
+    - intros l Hl Ha. destruct (Hc l Hl Ha) as [l0 [H0 [N0 B0]]].
+      destruct (saves_lost c ch s o s1 rp E Es l0 H0 N0) as [l1 [H1 [N1 B1]]].
+      exists l1. split; [exact H1|]. split; [exact N1|]. eapply same_binding_trans; eauto.
+  Qed.
+End Policy.
+
+(* the canonical policy *)
+Definition same_bindingb (a b : D.lease) : bool :=
+  (D.l_cid a =? D.l_cid b) && (D.l_mac a =? D.l_mac b) && D.oeqb (D.l_ip a) (D.l_ip b) && Bool.eqb (D.l_net2 a) (D.l_net2 b).
+Definition nonfreeb (l : D.lease) : bool := negb (D.lstate_eqb (D.l_state l) D.SFree).
+Definition survives (t1 : list D.lease) (l : D.lease) : bool :=
+  negb (nonfreeb l) || existsb (fun l1 => nonfreeb l1 && same_bindingb l1 l) t1.
+Definition saves_repaired (s : D.dstate) (rp : option D.reply) (s1 : D.dstate) : bool :=
+  G.is_ack_reply rp || negb (forallb (survives (D.tbl s1)) (D.tbl s)).
+
+Lemma oeqb_eq a b : D.oeqb a b = true -> a = b.
+Proof. destruct a, b; simpl; intros H; try discriminate; auto. apply N.eqb_eq in H. congruence. Qed.
+
+Lemma same_bindingb_spec a b : same_bindingb a b = true -> G.same_binding a b.
+Proof.
+  unfold same_bindingb, G.same_binding. intros H.
+  apply andb_true_iff in H as [H H4]. apply andb_true_iff in H as [H H3]. apply andb_true_iff in H as [H1 H2].
+  apply N.eqb_eq in H1, H2. apply oeqb_eq in H3. apply Bool.eqb_prop in H4. auto.
+Qed.
+
+Lemma nonfreeb_spec l : nonfreeb l = true <-> nonfree l.
+Proof. unfold nonfreeb, nonfree. destruct (D.l_state l); simpl; split; intros; try discriminate; try congruence; auto. Qed.
+
+Lemma saves_repaired_lost c ch s o s1 rp :
+  D.step c ch s o = (s1, rp) -> saves_repaired s rp s1 = false ->
+  forall l, In l (D.tbl s) -> nonfree l -> nonfree_in (D.tbl s1) l.
+Proof.
+  intros _ Hs l Hl Hn. unfold saves_repaired in Hs. apply orb_false_iff in Hs as [_ Hs].
+  apply negb_false_iff in Hs. rewrite forallb_forall in Hs. specialize (Hs l Hl).
+  unfold survives in Hs. apply nonfreeb_spec in Hn. rewrite Hn in Hs. simpl in Hs.
+  apply existsb_exists in Hs. destruct Hs as [l1 [H1 Hb]]. apply andb_true_iff in Hb as [N1 B1].
+  exists l1. split; [exact H1|]. split; [apply nonfreeb_spec; exact N1|apply same_bindingb_spec; exact B1].
+Qed.
+
+(* C18_file_current (repaired code): after EVERY history nothing acknowledged is missing from the file and nothing
+   in the file is stale, up to clients that are re-negotiating a lease they still hold *)
+Lemma file_current_repaired c h :
+  let r := run_file saves_repaired c (D.init c) [] h in
+  covers (snd r) (D.tbl (fst r)) /\ current_mod (snd r) (D.tbl (fst r)).
+Proof.
+  split.
+  - apply covers_run; [|intros l []]. intros s rp s1 A. unfold saves_repaired. rewrite A. reflexivity.
+  - apply (current_mod_run saves_repaired saves_repaired_lost). intros l [].
+Qed.
+
+(* the history that refuted file_current before the repair: the DECLINE step now saves *)
+Lemma file_current_decline_repaired :
+  let r := run_file saves_repaired gcfg (D.init gcfg) [] (DSh.with_ch0 h_decline) in
+  forall l, In l (snd r) -> D.l_state l <> D.SAllocated.
+Proof. vm_compute. intros l [<-|[]]. discriminate. Qed.
